@@ -44,9 +44,13 @@ def run(*activities: Coroutine, start: float = 0, till: float = None):
     """
     if till is not None:
         async def root(_activities=activities, _till=till):
-            async with until(time == _till) as scope:
-                for activity in _activities:
-                    scope.do(activity)
+            try:
+                async with until(time == _till) as scope:
+                    for activity in _activities:
+                        scope.do(activity)
+            except Concurrent as failure:
+                # an activity's exception is reported as without ``till``
+                raise failure.children[0]
         activities = root(_activities=activities, _till=till),
     loop = _Loop(*activities, start=start)
     loop.run()
